@@ -40,6 +40,7 @@ func newMountFields(app *App) *mountFields {
 // any of the fiber's sub apps are added to the application's error handlers
 // to be invoked on errors that happen within the prefix route.
 func (app *App) mount(prefix string, subApp *App) Router {
+	prefixOrig := prefix
 	prefix = utils.TrimRight(prefix, '/')
 	if prefix == "" {
 		prefix = "/"
@@ -54,7 +55,8 @@ func (app *App) mount(prefix string, subApp *App) Router {
 	}
 
 	// register mounted group
-	mountGroup := &Group{Prefix: prefix, app: subApp}
+	// the group keeps the prefix as given: the sub-app's routes are prefixed with it as a group would
+	mountGroup := &Group{Prefix: prefixOrig, app: subApp}
 	app.register([]string{methodUse}, prefix, mountGroup)
 
 	// Execute onMount hooks
@@ -70,6 +72,7 @@ func (app *App) mount(prefix string, subApp *App) Router {
 // compose them as a single service using Mount.
 func (grp *Group) mount(prefix string, subApp *App) Router {
 	groupPath := getGroupPath(grp.Prefix, prefix)
+	groupPathOrig := groupPath
 	groupPath = utils.TrimRight(groupPath, '/')
 	if groupPath == "" {
 		groupPath = "/"
@@ -84,7 +87,8 @@ func (grp *Group) mount(prefix string, subApp *App) Router {
 	}
 
 	// register mounted group
-	mountGroup := &Group{Prefix: groupPath, app: subApp}
+	// the group keeps the prefix as given: the sub-app's routes are prefixed with it as a group would
+	mountGroup := &Group{Prefix: groupPathOrig, app: subApp}
 	grp.app.register([]string{methodUse}, groupPath, mountGroup)
 
 	// Execute onMount hooks
@@ -210,10 +214,11 @@ func (app *App) processSubAppsRoutes() {
 				// Clone the sub-app's route
 				subAppRouteClone := app.copyRoute(subAppRoute)
 
-				// Add the mount path as registered (not its prettified form, which is already
-				// lower-cased and unescaped) as a prefix to the sub-app's route; addPrefixToRoute
-				// prettifies the prefixed path itself.
-				app.addPrefixToRoute(route.Path, subAppRouteClone)
+				// Add the mount prefix as given (not its prettified form, which is already
+				// lower-cased and unescaped, and not trimmed: a sub-app route with the empty path
+				// is the prefix itself) as a prefix to the sub-app's route; addPrefixToRoute
+				// normalises and prettifies the prefixed path itself.
+				app.addPrefixToRoute(route.group.Prefix, subAppRouteClone)
 
 				// Add the cloned sub-app's route to the slice of sub-app routes
 				subRoutes[j] = subAppRouteClone
